@@ -1082,8 +1082,8 @@ class Scanner:
                 continue
             # value before the loop: the initialiser, provided nothing else wrote the variable before the loop
             before = [a for a in self.accesses[:mark[0]] if a.kind == "store" and a.idx is None and a.base == nm]
-            if len(before) != 1 or before[0].value is None or before[0].loops[:len(self.loops)] != self.loops[:len(before[0].loops)] or len(before[0].loops) > len(self.loops):
-                continue
+            if len(before) != 1 or before[0].value is None or before[0].loops != self.loops:
+                continue        # (initialised outside an enclosing loop: the sum carries over from one outer iteration to the next)
             if L.cmp == "range":
                 if range_container is None:
                     continue
